@@ -98,3 +98,125 @@
         let d: u32 = vk::any();
         assert!(get_extra_size_before(d) as u64 + d as u64 >= 65536 || d >= 65536);
     }
+
+    // ---------------------------------------------------------------- LZMA2 chunk protocol, writer side
+    static mut COPY_LOG: [(i32, usize); 4] = [(0, 0); 4];
+    static mut COPY_N: usize = 0;
+    /// LZEncoderData::copy_uncompressed by contract: "writes buf[read_pos+1-backward ..][..len] to out"; here only the
+    /// arguments are recorded (the data movement itself is C01.lze.win).
+    fn copy_uncompressed_stub<W: Write>(_s: &crate::enc::lz::LZEncoderData, _out: &mut W, backward: i32, len: usize) -> crate::Result<()> {
+        unsafe { assert!(COPY_N < 4); COPY_LOG[COPY_N] = (backward, len); COPY_N += 1; }
+        Ok(())
+    }
+    fn mk_writer(props_needed: bool, dict_reset_needed: bool, state_reset_needed: bool, force: bool, pending_rc: usize,
+                 lc: u32, lp: u32, pb: u32) -> LZMA2Writer<crate::vk::Sink<32>> {
+        let o = LZMA2Options { lzma_options: LZMAOptions { dict_size: 4096, lc, lp, pb, mode: EncodeMode::Fast, nice_len: 32, mf: MFType::HC4,
+            depth_limit: 0, preset_dict: None }, chunk_size: None };
+        let mut w = lzma2_new_zeroed(crate::vk::Sink::<32>::new(), o);
+        unsafe { core::ptr::write(&mut w.rc, super::super::range_enc::verif_kani::mk_buffer_encoder(8, pending_rc, 0xC5)); }
+        w.props_needed = props_needed;
+        w.dict_reset_needed = dict_reset_needed;
+        w.state_reset_needed = state_reset_needed;
+        w.force_independent_chunk = force;
+        w
+    }
+    /// protocol invariant between chunks: an independent-chunk request is pending only together with the dictionary
+    /// reset and new-properties requests it stands for
+    fn proto_inv<W: Write>(w: &LZMA2Writer<W>) -> bool {
+        !w.force_independent_chunk || (w.dict_reset_needed && w.props_needed)
+    }
+
+    /// C01.l2.hdr / C03.lzma2.valid / C01.l2.reset: write_lzma from every flag state satisfying the protocol invariant,
+    /// every size pair and properties: header = control | be16(u-1) | be16(c-1) [| props], control = 0x80 + reset bits +
+    /// high bits of u-1 exactly as the xz specification defines; the properties byte is present iff the control byte
+    /// announces it; a dictionary reset is announced iff one is needed; the compressed payload follows; all requests cleared.
+    #[kani::proof]
+    #[kani::unwind(10)]
+    //@ERR
+    fn c01_l2_write_lzma() {
+        let (pn, dn, sn, f): (bool, bool, bool, bool) = (vk::any(), vk::any(), vk::any(), vk::any());
+        let (lc, lp, pb): (u32, u32, u32) = (vk::any(), vk::any(), vk::any());
+        vk::assume(lc <= 4 && lp <= 4 && lc + lp <= 4 && pb <= 4);
+        let k: usize = 3;
+        let mut w = mk_writer(pn, dn, sn, f, k, lc, lp, pb);
+        vk::assume(proto_inv(&w));
+        // a dictionary reset always comes with new properties (decoder requires them after a reset)
+        vk::assume(!dn || pn);
+        let u: u32 = vk::any();
+        let c: u32 = vk::any();
+        vk::assume(u >= 1 && u <= 1 << 21 && c >= 1 && c <= 1 << 16);
+        assert!(w.write_lzma(u, c).is_ok());
+        let b = &w.inner.buf;
+        let reset_bits: u8 = if pn { if dn { 3 } else { 2 } } else if sn { 1 } else { 0 };
+        assert!(b[0] == 0x80 | (reset_bits << 5) | (((u - 1) >> 16) as u8));
+        assert!(b[1] == ((u - 1) >> 8) as u8 && b[2] == (u - 1) as u8);
+        assert!(b[3] == ((c - 1) >> 8) as u8 && b[4] == (c - 1) as u8);
+        let hdr = if pn { 6 } else { 5 };
+        if pn { assert!(b[5] as u32 == (pb * 5 + lp) * 9 + lc); }
+        assert!(w.inner.len == hdr + k);
+        let mut i = 0;
+        while i < 6 { if i < k { assert!(b[hdr + i] == 0xC5); } i += 1; }
+        assert!(!w.props_needed && !w.dict_reset_needed && !w.state_reset_needed && !w.force_independent_chunk);
+        crate::vcover!(reset_bits == 3);
+        crate::vcover!(reset_bits == 0);
+        core::mem::forget(w);
+    }
+
+    /// C01.l2.hdr / C01.l2.reset (D6): write_uncompressed for 1..=3 chunks' worth of data from every flag state satisfying
+    /// the protocol invariant: per 64 KiB piece a header 0x01 (first piece when a dictionary reset is needed) or 0x02,
+    /// be16(size-1), then that piece copied from the window (pieces contiguous, in order, covering exactly the data);
+    /// afterwards a state reset is requested, the dictionary-reset request is satisfied, and the protocol invariant
+    /// still holds (an independent-chunk request that was pending has been honoured by the 0x01 chunk).
+    #[kani::proof]
+    #[kani::unwind(6)]
+    //@ERR
+    #[kani::stub(crate::enc::lz::LZEncoderData::copy_uncompressed, copy_uncompressed_stub)]
+    fn c01_l2_write_uncompressed() {
+        let (pn, dn, sn, f): (bool, bool, bool, bool) = (vk::any(), vk::any(), vk::any(), vk::any());
+        let mut w = mk_writer(pn, dn, sn, f, 0, 3, 0, 2);
+        vk::assume(proto_inv(&w));
+        let u: u32 = vk::any();
+        vk::assume(u >= 1 && u <= 3 * 65536);
+        unsafe { COPY_N = 0; }
+        assert!(w.write_uncompressed(u).is_ok());
+        let pieces = ((u + 65535) / 65536) as usize;
+        assert!(unsafe { COPY_N } == pieces && w.inner.len == 3 * pieces);
+        let mut left = u;
+        let mut i = 0;
+        while i < 3 {
+            if i < pieces {
+                let sz = if left < 65536 { left } else { 65536 };
+                let h = &w.inner.buf[3 * i..3 * i + 3];
+                assert!(h[0] == if i == 0 && dn { 0x01 } else { 0x02 });
+                assert!(h[1] == ((sz - 1) >> 8) as u8 && h[2] == (sz - 1) as u8);
+                assert!(unsafe { COPY_LOG[i] } == (left as i32, sz as usize));
+                left -= sz;
+            }
+            i += 1;
+        }
+        assert!(left == 0);
+        assert!(w.state_reset_needed && !w.dict_reset_needed && w.props_needed == pn);
+        assert!(proto_inv(&w), "independent-chunk request still pending after the dictionary reset it asked for was emitted");
+        core::mem::forget(w);
+    }
+
+    /// C18.clamp / C01.l2.reset: LZMA2Writer::new: first chunk resets the dictionary unless a preset dictionary is
+    /// given, properties and state reset are requested, chunk size is raised to the dictionary size.
+    #[kani::proof]
+    #[kani::unwind(4)]
+    //@ERR
+    #[kani::stub(crate::enc::encoder::LZMAEncoder::new, enc_new_zeroed)]
+    fn c01_l2_new_flags() {
+        let cs: u64 = vk::any();
+        let o = LZMA2Options { lzma_options: LZMAOptions { dict_size: 8192, lc: 3, lp: 0, pb: 2, mode: EncodeMode::Fast, nice_len: 32, mf: MFType::HC4,
+            depth_limit: 0, preset_dict: None }, chunk_size: NonZeroU64::new(cs) };
+        let w = LZMA2Writer::new(crate::vk::Sink::<4>::new(), o);
+        assert!(w.dict_reset_needed && w.state_reset_needed && w.props_needed && !w.force_independent_chunk);
+        assert!(w.pending_size == 0 && w.uncompressed_size == 0);
+        assert!(w.chunk_size == if cs == 0 { None } else { Some(if cs < 8192 { 8192 } else { cs }) });
+        assert!(!w.should_start_independent_chunk());
+        core::mem::forget(w);
+    }
+    fn enc_new_zeroed(_mode: EncodeMode, _lc: u32, _lp: u32, _pb: u32, _mf: MFType, _depth: i32, _dict: u32, _nice: usize) -> (LZMAEncoder, LZMAEncoderModes) {
+        unsafe { core::mem::MaybeUninit::<(LZMAEncoder, LZMAEncoderModes)>::zeroed().assume_init() }
+    }
